@@ -3,7 +3,7 @@
 cd "$(dirname "$0")" || exit 1
 mkdir -p evidence replays .cache
 cd spec || exit 1
-for m in TopSim TraceSim MC_Sim; do
+for m in TopSim TraceSim MC_Sim MC_ClusterAPI MC_Buffer Pure TraceEq; do
   java -cp /opt/veriftools/tla/tla2tools.jar:/opt/veriftools/tla/CommunityModules-deps.jar tla2sany.SANY $m.tla > /tmp/sany_$m.log 2>&1 || { cat /tmp/sany_$m.log; exit 1; }
   grep -q "Semantic errors\|Parse Error" /tmp/sany_$m.log && { cat /tmp/sany_$m.log; exit 1; }
 done
